@@ -25,6 +25,8 @@ From Borno Require Import RenameDefs.
 From Borno Require Import Rename.
 From Borno Require Import LayoutParse.
 From Borno Require Import LayoutRun.
+From Borno Require Import RenameParse.
+From Borno Require Import RenameParseRun.
 
 (** (a) inserting a blank, tab, carriage return or newline between any two items leaves the token list unchanged up to line numbers *)
 Theorem C18_layout_invariance :
@@ -341,3 +343,84 @@ Theorem C18_parse_flat_accepts :
          pr_diags (parse (flat ts) 0) = [] /\ pr_prog (parse (flat ts) 0) = Some (map erase_s p).
 Proof. exact (@parse_flat_accepts). Qed.
 Print Assumptions C18_parse_flat_accepts.
+
+(** (d) FROM TOKENS: renaming the identifier tokens of an accepted text by an injective renaming that fixes the built-in names, the word input, the function names and the names in property / key position gives an accepted text whose run has the same observables *)
+Theorem C18_rename_tokens_run :
+  forall r : list N -> list N,
+         (forall a b : list N, r a = r b -> a = b) ->
+         (forall n : native, r (native_name n) = native_name n) ->
+         r input_ascii = input_ascii ->
+         forall (libm : N -> f64 -> f64 -> f64) (clock : f64)
+           (sched : N -> list (list N * value) -> list (list N * value)) (f : nat) 
+           (repl : bool) (eofl : N) (ts : list token) (prog : list stmt) (stdin : list N),
+         accepts eofl ts prog ->
+         Forall (nf_stmt r) prog ->
+         (forall x : list N, In x (prop_names ts) -> r x = x) ->
+         exists prog' : list stmt,
+           accepts eofl (map (ren_tok r) ts) prog' /\
+           prog' = map (ren_stmt r) prog /\
+           observables (run_stmts libm clock sched f repl prog' (init_state stdin)) =
+           observables (run_stmts libm clock sched f repl prog (init_state stdin)).
+Proof. exact (@rename_tokens_run). Qed.
+Print Assumptions C18_rename_tokens_run.
+
+(** ...instantiated for the exchange of two names *)
+Theorem C18_rename_tokens_swap :
+  forall (libm : N -> f64 -> f64 -> f64) (clock : f64)
+           (sched : N -> list (list N * value) -> list (list N * value)) (x y : list N),
+         ~ In x reserved_names ->
+         ~ In y reserved_names ->
+         forall (f : nat) (repl : bool) (eofl : N) (ts : list token) (prog : list stmt) (stdin : list N),
+         accepts eofl ts prog ->
+         Forall (fun_names_ok (fun n : list N => n <> x /\ n <> y)) prog ->
+         ~ In x (prop_names ts) ->
+         ~ In y (prop_names ts) ->
+         exists prog' : list stmt,
+           accepts eofl (map (ren_tok (swap x y)) ts) prog' /\
+           prog' = map (ren_stmt (swap x y)) prog /\
+           observables (run_stmts libm clock sched f repl prog' (init_state stdin)) =
+           observables (run_stmts libm clock sched f repl prog (init_state stdin)).
+Proof. exact (@rename_tokens_swap). Qed.
+Print Assumptions C18_rename_tokens_swap.
+
+(** the parser commutes with renaming of identifier tokens (tree renamed, diagnostics at the same lines with the same kinds) *)
+Theorem C18_parse_rename :
+  forall (r : list N -> list N) (eofl : N),
+         (forall a b : list N, r a = r b -> a = b) ->
+         (forall x : list N, In (r x) reserved_names <-> In x reserved_names) ->
+         forall ts : list token,
+         pr_prog (parse (map (ren_tok r) ts) eofl) =
+         option_map (map (ren_stmt_all r)) (pr_prog (parse ts eofl)) /\
+         Forall2 (rdiag r (fun t : token => In t ts)) (pr_diags (parse ts eofl))
+           (pr_diags (parse (map (ren_tok r) ts) eofl)) /\
+         pr_fuel_out (parse (map (ren_tok r) ts) eofl) = pr_fuel_out (parse ts eofl).
+Proof. exact (@parse_rename). Qed.
+Print Assumptions C18_parse_rename.
+
+(** ...so acceptance is invariant under renaming *)
+Theorem C18_parse_rename_accepts :
+  forall (r : list N -> list N) (eofl : N),
+         (forall a b : list N, r a = r b -> a = b) ->
+         (forall x : list N, In (r x) reserved_names <-> In x reserved_names) ->
+         forall ts : list token,
+         (exists prog : list stmt, accepts eofl ts prog) <->
+         (exists prog' : list stmt, accepts eofl (map (ren_tok r) ts) prog').
+Proof. exact (@parse_rename_accepts). Qed.
+Print Assumptions C18_parse_rename_accepts.
+
+(** why names in property / key position are excluded: keys are data (printed, listed in sorted order) *)
+Theorem C18_key_renaming_is_observable :
+  pr_prog (parse (map (ren_tok (swap [106] [107])) ex_toks) ex_eofl) =
+         Some (map (ren_stmt_all (swap [106] [107])) ex_prog) /\
+         map (ren_stmt_all (swap [106] [107])) ex_prog <> map (ren_stmt (swap [106] [107])) ex_prog /\
+         observables
+           (run_stmts libm_d f_zero sched_d 50 false (map (ren_stmt_all (swap [106] [107])) ex_prog)
+              (init_state [])) =
+         (EndOk,
+          Some ([EvPrint [109; 97; 112; 91; 106; 58; 104; 105; 93]; EvPrint [104; 105; 104; 105]], [], 0)) /\
+         observables
+           (run_stmts libm_d f_zero sched_d 50 false (map (ren_stmt_all (swap [106] [107])) ex_prog)
+              (init_state [])) <>
+         observables (run_stmts libm_d f_zero sched_d 50 false ex_prog (init_state [])).
+Proof. exact (@key_renaming_is_observable). Qed.
+Print Assumptions C18_key_renaming_is_observable.
